@@ -235,7 +235,18 @@ type segState struct {
 }
 
 // parseEntryLen returns the length of the entry at b[0:], 0 if there is none (zero or invalid
-// flag) and -1 if the buffer ends inside the entry.
+// flag, or the header of an insert entry whose key was never written) and -1 if the buffer ends
+// inside the entry.
+//
+// An insert entry is flag, id, series key, and a series key is a uvarint payload length followed
+// by at least the 2-byte measurement length and the tag count (tsdb.AppendSeriesKey): its payload
+// length is never zero. "0x01, 8 id bytes, 0x00" is therefore not an entry but what an append torn
+// inside an insert header leaves in the zero-filled pre-allocated file. Segment recovery ends the
+// log in front of such a fragment (fix f9513305e3) and the next append overwrites it, so the
+// fragment can sit BETWEEN the last whole entry in the file and tsdb's data size while tombstones
+// acknowledged with NoFlush are still buffered. Counting it as a 10-byte entry (as this parser did
+// while recovery did) would put the "whole entries in the file" mark, and the boundary cached in
+// machine.walk, into the middle of the entries that are flushed over it later.
 func parseEntryLen(b []byte) int64 {
 	if len(b) == 0 {
 		return -1
@@ -253,6 +264,9 @@ func parseEntryLen(b []byte) int64 {
 		l, n := binary.Uvarint(b[entryHeader:])
 		if n <= 0 {
 			return -1
+		}
+		if l == 0 {
+			return 0
 		}
 		tot := int64(entryHeader) + int64(n) + int64(l)
 		if tot > int64(len(b)) {
@@ -809,4 +823,3 @@ func classes(m *machine) {
 		rec.Class("history:multi-segment-partition")
 	}
 }
-
